@@ -219,6 +219,84 @@ theorem inv_add (hc : CfgOK cfg G) {w : World} (h : Inv cfg G w) (i : Nat) (e : 
         rw [invalidate_set w i _ hlt]
         exact inv_mutated hc h i inst hi _ _ _ (tabOK_add_override inst e old t2 _ ht ho _ hd) (uniqueNames_upsert _ _ hu)
 
+/-- one `_add` that completes keeps table and dictionary consistent and does not touch the memo slots -/
+theorem addRawInst_ok (inst : Inst) (e : Elt) (ht : TabOK inst) (hu : uniqueNames inst.elts)
+    (hadm : cfg.overrideDetaches = true ∨ findElt inst.elts e.name = none)
+    (hok : (addRawInst cfg inst e).2 = true) :
+    TabOK (addRawInst cfg inst e).1 ∧ uniqueNames (addRawInst cfg inst e).1.elts ∧
+    (addRawInst cfg inst e).1.memo = inst.memo ∧ (addRawInst cfg inst e).1.elts = upsert inst.elts e := by
+  unfold addRawInst at hok ⊢
+  cases ho : findElt inst.elts e.name with
+  | none =>
+    simp only [ho]
+    exact ⟨tabOK_add_new inst e _ ht ho, uniqueNames_upsert _ _ hu, trivial, trivial⟩
+  | some old =>
+    have hdet : cfg.overrideDetaches = true := by
+      rcases hadm with h1 | h1
+      · exact h1
+      · rw [ho] at h1; cases h1
+    simp only [ho, hdet, if_true] at hok ⊢
+    cases hd : detachAll cfg.keepConnectedNode (attachElt inst.tab e) old.nodes old.counted with
+    | inl t2 => simp [hd] at hok
+    | inr t2 =>
+      simp only [hd]
+      exact ⟨tabOK_add_override inst e old t2 _ ht ho _ hd, uniqueNames_upsert _ _ hu, trivial, trivial⟩
+
+theorem addLinesInst_ok (es : List Elt) (inst : Inst) (ht : TabOK inst) (hu : uniqueNames inst.elts)
+    (hadm : cfg.overrideDetaches = true ∨ (uniqueNames es ∧ ∀ e ∈ es, findElt inst.elts e.name = none))
+    (hok : (addLinesInst cfg inst es).2 = true) :
+    TabOK (addLinesInst cfg inst es).1 ∧ uniqueNames (addLinesInst cfg inst es).1.elts ∧
+    (addLinesInst cfg inst es).1.memo = inst.memo := by
+  induction es generalizing inst with
+  | nil => exact ⟨ht, hu, rfl⟩
+  | cons e es ih =>
+    simp only [addLinesInst] at hok ⊢
+    cases h1 : (addRawInst cfg inst e).2 with
+    | false => simp [h1] at hok
+    | true =>
+      simp only [h1, if_true] at hok ⊢
+      have hadm1 : cfg.overrideDetaches = true ∨ findElt inst.elts e.name = none := by
+        rcases hadm with h | h
+        · exact Or.inl h
+        · exact Or.inr (h.2 e (List.mem_cons_self ..))
+      obtain ⟨ht1, hu1, hm1, he1⟩ := addRawInst_ok (cfg := cfg) inst e ht hu hadm1 h1
+      have hadm2 : cfg.overrideDetaches = true ∨ (uniqueNames es ∧ ∀ x ∈ es, findElt (addRawInst cfg inst e).1.elts x.name = none) := by
+        rcases hadm with h | h
+        · exact Or.inl h
+        · refine Or.inr ⟨h.1.2, ?_⟩
+          intro x hx
+          rw [he1, findElt_none]
+          intro y hy
+          rcases mem_upsert _ _ _ hy with hy | hy
+          · subst hy; exact fun h2 => h.1.1 x hx h2.symm
+          · exact (findElt_none _ _).1 (h.2 x (List.mem_cons_of_mem _ hx)) y hy
+      obtain ⟨ht2, hu2, hm2⟩ := ih _ ht1 hu1 hadm2 hok
+      exact ⟨ht2, hu2, hm2.trans hm1⟩
+
+theorem inv_addLines (hc : CfgOK cfg G) {w : World} (h : Inv cfg G w) (i : Nat) (es : List Elt)
+    (hadm : (Op.addLines i es).admissible cfg w) (hok : (addLines cfg w i es).2 = true) :
+    Inv cfg G (addLines cfg w i es).1 := by
+  obtain ⟨hinv, hover⟩ := hadm
+  unfold addLines at hok ⊢
+  cases hi : w.insts[i]? with
+  | none => simp [hi] at hok
+  | some inst =>
+    have hlt : i < w.insts.length := by
+      rcases Nat.lt_or_ge i w.insts.length with h1 | h1
+      · exact h1
+      · rw [List.getElem?_eq_none h1] at hi; cases hi
+    obtain ⟨ht, hu⟩ := h.tab i inst hi
+    have helts : eltsOf w i = inst.elts := by simp [eltsOf, hi]
+    rw [helts] at hover
+    simp only [hi] at hok ⊢
+    cases hr : (addLinesInst cfg inst es).2 with
+    | false => simp [hr] at hok
+    | true =>
+      obtain ⟨ht2, hu2, hm2⟩ := addLinesInst_ok (cfg := cfg) es inst ht hu hover hr
+      simp only [hr, hinv, Bool.and_self, if_true]
+      rw [invalidate_set w i _ hlt, hm2]
+      exact inv_mutated hc h i inst hi _ _ _ ht2 hu2
+
 theorem inv_remove (hc : CfgOK cfg G) {w : World} (h : Inv cfg G w) (i : Nat) (nm : String)
     (hadm : (Op.remove i nm).admissible cfg w) (hok : (remove cfg w i nm).2 = true) :
     Inv cfg G (remove cfg w i nm).1 := by
@@ -509,6 +587,7 @@ theorem inv_step (hc : CfgOK cfg G) {w : World} (h : Inv cfg G w) (op : Op)
   | new => exact inv_newInst hclk
   | add i e => exact inv_add hc hclk i e hadm hok
   | addRaw i e => exact absurd hadm (by simp [Op.admissible])
+  | addLines i es => exact inv_addLines hc hclk i es hadm hok
   | remove i nm => exact inv_remove hc hclk i nm hadm hok
   | query i q => exact (readSlots_spec hc (cfg.readsOf q) hclk i).1
   | derive i pre es => exact inv_derive hc hclk i pre es hadm
